@@ -84,7 +84,8 @@ fn medium_of(m: Med) -> Medium {
 impl World {
     /// `strict`: additionally prove that one more poll after the set-up leaves every socket image
     /// unchanged (costs two extra image computations; done on the re-executions and in replay)
-    pub fn new(med: Med, ver: Ver, sock: Sock, joined: bool, primed: bool, strict: bool) -> World {
+    #[allow(clippy::too_many_arguments)]
+    pub fn new(med: Med, ver: Ver, layout: Layout, sock: Sock, joined: bool, primed: bool, strict: bool) -> World {
         let mtu = match med {
             Med::Eth => 1514,
             Med::Ip => 1500,
@@ -104,11 +105,11 @@ impl World {
         let now = Instant::from_millis(NOW_MS);
         let mut iface = Interface::new(config, &mut dev, now);
         let a = addrs(ver);
-        let two_addrs = smoltcp::config::IFACE_MAX_ADDR_COUNT >= 2;
+        let mut table = address_table(ver, layout);
+        table.truncate(smoltcp::config::IFACE_MAX_ADDR_COUNT.max(1));
         iface.update_ip_addrs(|l| {
-            l.push(IpCidr::new(to_ip(&a.my), a.prefix_len)).unwrap();
-            if two_addrs {
-                l.push(IpCidr::new(to_ip(&a.my2), a.prefix_len2)).unwrap();
+            for (addr, plen) in &table {
+                l.push(IpCidr::new(to_ip(addr), *plen)).unwrap();
             }
         });
         let mut errors = vec![];
